@@ -177,7 +177,7 @@ def malformed(rng):
 
 
 def gen(rng, tier):
-    n = {"quick": 400, "thorough": 4000, "search": 800}[tier]
+    n = {"quick": 300, "thorough": 4000, "search": 800}[tier]
     cases = []
     for i in range(n):
         h = malformed(rng) if i % 8 == 7 else pattern(rng)
